@@ -32,6 +32,7 @@ static vbuf g_log;
 static char g_casedesc[128];
 static const char* g_mode = "c04";
 static unsigned long g_nviol, g_nknown;
+static unsigned long g_nviol_other;
 static int g_case_violated;
 static pthread_mutex_t g_out = PTHREAD_MUTEX_INITIALIZER;
 
@@ -46,7 +47,12 @@ static void violation(const char* props, const char* key, const char* fmt, ...)
     char hk[160];
     if (g_hostile) { snprintf(hk, sizeof hk, "while-running-misuse"); key = hk; known = kk && strstr(kk, hk) != 0; }
     if (known) { if (++g_nknown > 50) { pthread_mutex_unlock(&g_out); return; } }
-    else { ++g_nviol; g_case_violated = 1; }
+    else {
+        g_case_violated = 1;
+        const char* own = getenv("VERIF_PROP"); // the property this run decides: only its violations count towards the worker's cap
+        if (own && !strstr(props, own)) { if (++g_nviol_other > 60) { pthread_mutex_unlock(&g_out); return; } }
+        else ++g_nviol;
+    }
     printf("V {\"props\":\"%s\",\"key\":\"%s\",\"case\":\"%s\",\"msg\":", props, key, g_casedesc);
     vjson_str(stdout, msg);
     printf(",\"oplog\":"); vjson_str(stdout, g_log.p ? g_log.p : ""); printf("}\n");
@@ -362,7 +368,7 @@ static int guarded_call(int kind, const char* what, double timeout_s)
 
 // ---- per-acquisition result + oracles ---------------------------------------------------------------------------------
 static struct { unsigned long cases, acqs, frames_cam, frames_sto, frames_client, wraps, sleeps, stops, aborts, two_stream, avg_acqs, faults_cam,
-                faults_sto, instants_hit[END_N], instants_missed[END_N], client_pat[CL_N], late_join, restarts_without_configure, faults_with_averaging, only_stream1_acqs, c08_programs, c08_calls, reconfig_switch,
+                faults_sto, instants_hit[END_N], instants_missed[END_N], client_pat[CL_N], late_join, restarts_without_configure, faults_with_averaging, only_stream1_acqs, restarts_on_state, c08_programs, c08_calls, reconfig_switch,
                 writer_asleep_at_fault, dead_filter_aborts, avg_windows, nondiv8, shape_changes, holds_across_end, real_dev_acqs, zero_frames; } C;
 static vset g_sigs;
 
@@ -820,6 +826,8 @@ static void gen_stream(vrng* g, struct stream_cfg* s, const char* mode, int smal
         default: s->sto.append_min_us = 1000; s->sto.append_max_us = 6000; break;
     }
     if (s->cam.pace_max_us >= 300 && s->N > 150) s->N = vrng_range(g, 20, 150);
+    if (vrng_chance(g, 1, 3)) s->cam.stop_us = (int)vrng_range(g, 200, 5000);
+    if (vrng_chance(g, 1, 4)) s->sto.stop_us = (int)vrng_range(g, 200, 5000);
 }
 
 static void run_case(const char* mode, uint64_t seed, unsigned long icase, int verbose)
@@ -1054,6 +1062,22 @@ static void run_program(uint64_t seed, unsigned long icase, int verbose, int hos
         } else if (op < 96) {
             code = 8; vbuf_printf(&g_log, "get_configuration ");
             struct AcquireProperties p; memset(&p, 0, sizeof p); ++g_api_calls; acquire_get_configuration(g_rt, &p);
+        } else if (op >= 98 && !hostile && configured && running && a.s[0].N != (uint64_t)-1 && (!a.s[1].on || a.s[1].N != (uint64_t)-1)) {
+            // a client that lets a finite acquisition run to its end, watches acquire_get_state and starts again as soon as
+            // the runtime no longer says Running (no stop in between; the repository's tests do this, too)
+            code = 10; vbuf_printf(&g_log, "await-not-running-then-start ");
+            double t0 = now_s(); int over = 0;
+            while (now_s() - t0 < 10) {
+                ++g_api_calls;
+                if (acquire_get_state(g_rt) != DeviceState_Running) { over = 1; break; }
+                if (g_cl_first_map_label >= 0) client_step(0, CL_EAGER, &g, 0, 0);
+                for (int i = 0; i < 2; ++i) if (atomic_load(&M->cam[i].waiting_trigger)) acquire_execute_trigger(g_rt, (uint32_t)i);
+                nap_us(50);
+            }
+            if (!over) { vbuf_printf(&g_log, "(still running) "); continue; }
+            ++g_api_calls; ++C.restarts_on_state;
+            running = acquire_start(g_rt) == AcquireStatus_Ok;
+            vbuf_printf(&g_log, "[%s] ", running ? "started" : "refused");
         } else {
             code = 9; vbuf_printf(&g_log, "nap "); nap_us((long)vrng_range(&g, 100, 20000));
             // feed triggers so blocked cameras progress
@@ -1102,10 +1126,10 @@ int main(int argc, char** argv)
            "\"ring_wraps\":%lu,\"writer_sleeps\":%lu,\"stops\":%lu,\"aborts\":%lu,\"two_stream_acqs\":%lu,\"averaging_acqs\":%lu,\"averaged_windows_checked\":%lu,"
            "\"aborts_with_dead_filter\":%lu,\"camera_faults\":%lu,\"storage_faults\":%lu,\"faults_with_writer_asleep\":%lu,\"late_joins\":%lu,\"holds_across_end\":%lu,\"frame_sizes_not_div8\":%lu,"
            "\"shape_change_acqs\":%lu,\"zero_size_acqs\":%lu,\"real_device_acqs\":%lu,\"programs\":%lu,\"program_calls\":%lu,\"device_switches\":%lu,\"api_calls\":%d,"
-           "\"device_events\":%zu,\"restarts_without_configure\":%lu,\"faults_with_averaging\":%lu,\"only_second_stream_acqs\":%lu,\"distinct\":%zu",
+           "\"device_events\":%zu,\"restarts_without_configure\":%lu,\"faults_with_averaging\":%lu,\"only_second_stream_acqs\":%lu,\"restarts_on_reported_state\":%lu,\"distinct\":%zu",
            g_mode, C.cases, g_nviol, C.acqs, C.frames_cam, C.frames_sto, C.frames_client, C.wraps, C.sleeps, C.stops, C.aborts, C.two_stream, C.avg_acqs,
            C.avg_windows, C.dead_filter_aborts, C.faults_cam, C.faults_sto, C.writer_asleep_at_fault, C.late_join, C.holds_across_end, C.nondiv8, C.shape_changes, C.zero_frames,
-           C.real_dev_acqs, C.c08_programs, C.c08_calls, C.reconfig_switch, g_api_calls, M->nevents, C.restarts_without_configure, C.faults_with_averaging, C.only_stream1_acqs, g_sigs.n);
+           C.real_dev_acqs, C.c08_programs, C.c08_calls, C.reconfig_switch, g_api_calls, M->nevents, C.restarts_without_configure, C.faults_with_averaging, C.only_stream1_acqs, C.restarts_on_state, g_sigs.n);
     for (int i = 0; i < END_N; ++i) printf(",\"end_%s\":%lu,\"end_%s_missed\":%lu", k_end[i], C.instants_hit[i], k_end[i], C.instants_missed[i]);
     for (int i = 0; i < CL_N; ++i) printf(",\"client_%s\":%lu", k_client[i], C.client_pat[i]);
     printf("}\n");
